@@ -19,7 +19,8 @@ RULE = ("scenario = fit on a training series with integer index (RangeIndex or I
         "not seasonal), Detrender(PolynomialTrendForecaster degree 0..2 / default), LogTransformer, "
         "BoxCoxTransformer (mle/pearsonr, bounds), TabularToSeriesAdaptor(StandardScaler / "
         "MinMaxScaler variants), OptionalPassthrough(passthrough True/False) around them, "
-        "HampelFilter, Imputer (all methods), ACF/PACF. values are dyadic rationals (k/64). "
+        "HampelFilter, Imputer (all methods), CosineTransformer, ACF/PACF; Period (monthly) and Datetime "
+        "(daily) indices for the deseasonalizers, Period for the pointwise ones. values are dyadic rationals (k/64). "
         "non-trivial = the scenario ran (no exception); distinct = distinct canonical JSON case")
 TRUSTED = [
     "translator/series_c13.py (Python ast -> Gallina, fail-closed): _get_duration's integer branch, "
@@ -46,7 +47,7 @@ MODELLED = [
     "LogTransformer / BoxCoxTransformer: proved over abstract exp/ln/pow with three algebraic "
     "hypotheses; tied by correspondence only through index equality, the round trip in Q and the "
     "shift relation (their values are not recomputed in Coq)",
-    "HampelFilter, Imputer, ACF, PACF: no value model; the theorem covers every transformer that is "
+    "HampelFilter, Imputer, CosineTransformer, ACF, PACF: no value model; the theorem covers every transformer that is "
     "a function of the positional values, and the run checks index preservation, fit_transform and "
     "the shift relation on the real outputs (Coq compares the two runs' outputs, CShift)",
     "TabularToSeriesAdaptor: affine scalers only (StandardScaler, MinMaxScaler), one column",
@@ -54,10 +55,20 @@ MODELLED = [
     "Detrender.update: the forecaster's own update/refit is an oracle (any trend function); gapped "
     "or overlapping update batches and update(update_params=True) before any horizon was seen "
     "(ValueError, property C10's finding) are not generated",
-    "non-contiguous integer indices, Period/Datetime indices and DataFrame inputs are outside the "
-    "model (the property's shift clause is about integer time)",
+    "non-contiguous integer indices and DataFrame inputs are outside the model; Period/Datetime "
+    "indices are run for the deseasonalizers with time = month ordinal / day number, but "
+    "_get_duration's date branch (coercion through the frequency) is not regenerated - for those "
+    "index types the tie is the correspondence run only",
+    "MeanTransformer (series-to-primitives) is not a series-to-series transformer and is not covered",
 ]
-NOT_RUNNABLE = []
+NOT_RUNNABLE = [
+    "MatrixProfileTransformer (matrix_profile.py): the optional dependency stumpy is not installed; "
+    "covered statically only (the translator checks it does not override fit_transform; its output "
+    "is a fresh position-indexed Series computed from the values)",
+    "DatetimeIndex / PeriodIndex for Detrender and Imputer('drift'/'forecaster'): the trend "
+    "forecaster's date paths need pandas-1 behaviour (Timestamp.freq, ordered offsets) that this "
+    "environment lacks; run on integer indices only",
+]
 
 
 def translate(repo):
@@ -79,8 +90,8 @@ def driver_init():
 # ------------------------------------------------------------------------------------------------
 # case generation
 
-INVERTIBLE = ("deseason", "cond", "detrend", "log", "boxcox", "adaptor", "optional")
-POSITIONAL = ("hampel", "imputer")
+INVERTIBLE = ("deseason", "cond", "detrend", "log", "boxcox", "adaptor", "optional", "train")
+POSITIONAL = ("hampel", "imputer", "cos")
 LAGGED = ("acf", "pacf")
 IMPUTE_METHODS = ["drift", "linear", "nearest", "constant", "mean", "median", "backfill", "bfill",
                   "pad", "ffill", "random"]
@@ -132,7 +143,16 @@ def _stretch(rng, n, sp, positive, off=None):
 
 def _common(rng, kind, cfg, y, off, z, ups=(), pre=False, k=None):
     t0 = rng.choice([0, 0, 1, 3, 5, 7, 12, 29, 60, -4, -20])
-    return {"kind": kind, "cfg": cfg, "t0": t0, "idx": rng.choice(["range", "int"]), "y": y,
+    return {"kind": kind, "cfg": cfg, "t0": t0,
+            # DatetimeIndex only where this environment can run it (pandas 2 dropped Timestamp.freq,
+            # which the trend forecaster needs): the deseasonalizers
+            # (the trend forecaster behind Detrender / Imputer("drift") is run on integer indices
+            # only: its Period / Datetime paths need pandas-1 behaviour this environment lacks)
+            "idx": rng.choice(["range", "range", "int", "int", "int"]
+                              + (["period", "datetime"] if kind in ("deseason", "cond", "train")
+                                 else ["period"] if kind in ("log", "boxcox", "adaptor", "hampel",
+                                                             "acf", "pacf", "cos") else ["int"])),
+            "y": y,
             "pre": pre, "ups": list(ups), "off": off, "z": z,
             "k": _pick_k(rng, t0) if k is None else k}
 
@@ -157,16 +177,22 @@ def _gen_deseason(rng, cases, reps):
         for model in ("additive", "multiplicative"):
             offs = list(range(0, 2 * sp + 1))
             for rep in range(reps):
-                for off in offs if rep == 0 else rng.sample(offs, 3):
+                # rep 0: every offset 0..2*sp without update; rep 1: every offset with update(s)
+                for off in offs if rep < 2 else rng.sample(offs, 3):
                     n = 2 * sp + rng.randint(0, sp + 2)
                     y = _seasonal_series(rng, n, sp, True)
-                    if rep > 0 and rng.random() < 0.5:
+                    if rep >= 2 and rng.random() < 0.6:
                         off2, z = _stretch(rng, n, sp, True)
                     else:
                         off2, z = _stretch(rng, n, sp, True, off)
-                    how = rng.choice([0, 1, 1, 2])
+                    how = 0 if rep == 0 else rng.choice([1, 1, 2]) if rep == 1 else \
+                        rng.choice([0, 1, 2])
                     cases.append(_common(rng, "deseason", {"sp": sp, "model": model}, y, off2, z,
                                          _des_ups(rng, n, sp, how), pre=rng.random() < 0.3))
+            for extra in (0, rng.randint(1, sp - 1), rng.randint(sp, 2 * sp)):
+                n = 2 * sp + extra
+                y = _seasonal_series(rng, n, sp, True)
+                cases.append(_common(rng, "train", {"sp": sp, "model": model}, y, 0, y))
 
 
 def _gen_cond(rng, cases, count):
@@ -276,6 +302,13 @@ def _gen_positional(rng, cases, counts):
         c["t0"] = rng.choice([1, 3, 5, 7, 12, 29, 0])
         c["k"] = rng.choice([-c["t0"], 4, 11, -2]) or 3
         cases.append(c)
+    for _ in range(counts["cos"]):
+        n = rng.randint(3, 10)
+        z = _plain_series(rng, n, False)
+        c = _common(rng, "cos", {}, z[:3], 0, z)
+        c["t0"] = rng.choice([1, 3, 5, 7, 12, 29, 0])
+        c["k"] = rng.choice([-c["t0"], 4, 11, -2]) or 3
+        cases.append(c)
     for kind in LAGGED:
         for _ in range(counts[kind]):
             n = rng.randint(12, 22)
@@ -289,7 +322,7 @@ def _gen_positional(rng, cases, counts):
 def gen_cases(rng, tier):
     q = tier == "quick"
     cases = []
-    _gen_deseason(rng, cases, 2 if q else 12)
+    _gen_deseason(rng, cases, 3 if q else 12)
     _gen_cond(rng, cases, 40 if q else 400)
     _gen_detrend(rng, cases, 70 if q else 700)
     _gen_pointwise(rng, cases, "log", 16 if q else 150)
@@ -297,12 +330,17 @@ def gen_cases(rng, tier):
     _gen_pointwise(rng, cases, "adaptor", 36 if q else 300)
     _gen_optional(rng, cases, 36 if q else 300)
     _gen_positional(rng, cases, {"hampel": 24 if q else 200, "imputer": 33 if q else 220,
-                                 "acf": 10 if q else 80, "pacf": 10 if q else 80})
+                                 "acf": 10 if q else 80, "pacf": 10 if q else 80,
+                                 "cos": 8 if q else 60})
     return cases
 
 
 # ------------------------------------------------------------------------------------------------
 # implementation side (runs in the driver subprocess)
+
+
+PERIOD_BASE = 360          # 2000-01
+DAY_BASE = "2000-01-01"
 
 
 def _series(vals, start, idx):
@@ -311,6 +349,12 @@ def _series(vals, start, idx):
     v = np.array([np.nan if x is None else x for x in vals], dtype=float)
     if idx == "range":
         index = pd.RangeIndex(start, start + len(v))
+    elif idx == "period":      # time t <-> the month with ordinal PERIOD_BASE + t
+        index = pd.period_range(pd.Period(ordinal=PERIOD_BASE + start, freq="M"), periods=len(v),
+                                freq="M")
+    elif idx == "datetime":    # time t <-> day t after DAY_BASE
+        index = pd.date_range(pd.Timestamp(DAY_BASE) + pd.Timedelta(days=start), periods=len(v),
+                              freq="D")
     else:
         index = pd.Index(np.arange(start, start + len(v), dtype="int64"))
     return pd.Series(v, index=index)
@@ -362,6 +406,9 @@ def _make(kind, cfg):
         from sktime.transformations.series.impute import Imputer
         return Imputer(method=cfg["method"], value=1.5 if cfg["method"] == "constant" else None,
                        random_state=3 if cfg["method"] == "random" else None)
+    if kind == "cos":
+        from sktime.transformations.series.cos import CosineTransformer
+        return CosineTransformer()
     if kind == "acf":
         from sktime.transformations.series.acf import AutoCorrelationTransformer
         return AutoCorrelationTransformer(n_lags=cfg["n_lags"])
@@ -379,9 +426,17 @@ def _canon(s):
         raise TypeError("transform returned %s, not a Series" % type(s).__name__)
     idx = []
     for t in s.index:
-        if not isinstance(t, (int, np.integer)):
+        if isinstance(t, pd.Period) and t.freqstr == "M":
+            idx.append(int(t.ordinal) - PERIOD_BASE)
+        elif isinstance(t, pd.Timestamp):
+            d = t - pd.Timestamp(DAY_BASE)
+            if d != pd.Timedelta(days=d.days):
+                raise TypeError("output index holds a time of day: %s" % t)
+            idx.append(int(d.days))
+        elif isinstance(t, (int, np.integer)):
+            idx.append(int(t))
+        else:
             raise TypeError("output index holds %s" % type(t).__name__)
-        idx.append(int(t))
     return [idx, [float_ratio(float(v)) for v in s.to_numpy()]]
 
 
@@ -418,8 +473,37 @@ def _same(a, b):
     return a[0] == b[0] and a[1] == b[1]
 
 
+def _scenario_train(case, k):
+    """fit_transform on the training series, with a spy recording the seasonal series that the
+    decomposition call inside fit returned (so the tie does not depend on its arguments)"""
+    import numpy as np
+    import sktime.transformations.series.detrend._deseasonalize as M
+    from sktime.transformations.series.detrend import Deseasonalizer
+    cfg = case["cfg"]
+    y = _series(case["y"], case["t0"] + k, case["idx"])
+    rec = {}
+    orig = M.seasonal_decompose
+
+    def spy(*a, **kw):
+        r = orig(*a, **kw)
+        rec["full"] = np.asarray(r.seasonal, dtype=float)
+        return r
+    M.seasonal_decompose = spy
+    try:
+        t = Deseasonalizer(sp=cfg["sp"], model=cfg["model"])
+        yt = t.fit_transform(y)
+    finally:
+        M.seasonal_decompose = orig
+    zi = t.inverse_transform(yt)
+    return {"zt": _canon(yt), "zi": _canon(zi), "ft_equal": True,
+            "full": [float_ratio(v) for v in rec["full"]],
+            "fitted": {"seasonal": [float_ratio(v) for v in np.asarray(t.seasonal_, dtype=float)]}}
+
+
 def _scenario(case, k):
     kind, cfg, idx = case["kind"], case["cfg"], case["idx"]
+    if kind == "train":
+        return _scenario_train(case, k)
     t0 = case["t0"] + k
     y = _series(case["y"], t0, idx)
     t = _make(kind, cfg)
@@ -482,6 +566,8 @@ def _finite(v):
 def _expected(kind, cfg, fitted, t0, times, z):
     """model-side expectation of transform(z) from the fitted object's own quantities, or None
     where the model has no value claim; returns (clause, list)"""
+    if kind == "train":
+        kind = "deseason"
     if kind in ("deseason", "cond"):
         if kind == "cond" and not fitted["is_seasonal"]:
             return "conditional-passthrough", list(z)
@@ -532,6 +618,19 @@ def _check_run(case, r, k):
             if _finite(a) and not _close(x, b):
                 return ("inverse-not-identity: at time %d (offset %d from the training start) "
                         "inverse_transform(transform(z)) = %r, z = %r" % (t, t - t0, b, x))
+        if kind == "train":
+            sp = cfg["sp"]
+            full = [_f(v) for v in r["full"]]
+            seas = [_f(v) for v in r["fitted"]["seasonal"]]
+            if len(full) != len(z) or not all(_close(a, b) for a, b in zip(full[:sp], seas)) \
+                    or len(seas) != sp:
+                return ("seasonal-first-period: seasonal_ = %s is not the first period of the "
+                        "decomposition's seasonal series %s" % (seas, full))
+            for i, (x, a, c) in enumerate(zip(z, zt, full)):
+                e = x - c if cfg["model"] == "additive" else (x / c if c else None)
+                if e is not None and not _close(e, a):
+                    return ("training-decomposition: fit_transform(y) at position %d gave %r, "
+                            "expected %r from the decomposition's seasonal series" % (i, a, e))
         clause, exp = _expected(kind, cfg, r["fitted"], t0, times, z)
         if clause and exp is None:
             return "%s: fitted component has the wrong length" % clause
@@ -603,7 +702,7 @@ def shrink(case):
         d["kind"], d["cfg"] = c["cfg"]["inner"]["kind"], c["cfg"]["inner"]["cfg"]
         yield d
     zmin = {"hampel": c["cfg"].get("window_length", 0) + 2, "imputer": 3, "acf": 12,
-            "pacf": 12}.get(c["kind"], 1)
+            "pacf": 12, "train": 10 ** 9}.get(c["kind"], 1)
     if len(c["z"]) > zmin and any(v is not None for v in c["z"][:-1]):
         d = dict(c)
         d["z"] = c["z"][:-1]
@@ -683,6 +782,12 @@ def coq_case(case, out):
         return "CShift %s %s %s %s" % (cz(k), cbool(kind in LAGGED), _ciser(out["base"]["zt"]),
                                        _ciser(out["shift"]["zt"]))
     r = out["shift"] if "shift" in out else out["base"]
+    if kind == "train":
+        cfg = case["cfg"]
+        return "CTrain %s %s %s %s %s %s" % (
+            cz(cfg["sp"]), "Additive" if cfg["model"] == "additive" else "Multiplicative",
+            clist([cq(v) for v in r["full"]]), clist([cq(v) for v in r["fitted"]["seasonal"]]),
+            _cser(case["t0"] + k, case["y"]), _ciser(r["zt"]))
     t0 = case["t0"] + k
     z = _cser(t0 + case["off"], case["z"])
     ups = [t0 + u["at"] for u in case["ups"]]
@@ -706,6 +811,7 @@ def distribution(cases, results):
         d["%s:%s" % (c["kind"], "error" if "err" in o or not o else "ran")] += 1
         if c["kind"] in ("deseason", "cond"):
             sp = c["cfg"]["sp"]
+            d["index:%s" % c["idx"]] += 1
             d["deseason:offset%%sp%s0" % ("!=" if c["off"] % sp else "==")] += 1
             d["deseason:updates=%d" % len(c["ups"])] += 1
             if any(u["at"] % sp for u in c["ups"]):
